@@ -42,11 +42,11 @@ LOAD_CLASSES = {"xyz": ["trajectory", "blank_titles"], "sdf": ["trajectory", "bl
 
 def plan(tier, seed):
     cases = []
-    n = 8 if tier == "quick" else 80
+    n = 8 if tier == "quick" else 800
     for fmt in go.MANY_FORMATS:
         for i in range(n):
             cases.append({"kind": "dump", "fmt": fmt, "i": i, "seed": seed})
-    m = 3 if tier == "quick" else 30
+    m = 3 if tier == "quick" else 300
     for w, klasses in LOAD_CLASSES.items():
         for klass in klasses:
             for i in range(m):
